@@ -169,7 +169,7 @@ def field_choices(cname, fname, ann, default):
         if p == "bool":
             out += [True, False]
         elif p == "int":
-            out.append(7)
+            out += [7, 0]      # 0: the boundary a truthiness test (`x or default`, `if node.x`) confuses with "absent"
         elif p == "float":
             out.append(2.5)
         elif p == "str":
